@@ -18,7 +18,8 @@ LocOK(e, files) ==
   \/ e.file = "__standards__" /\ e.line \in 1..3
   \/ \E i \in DOMAIN files : files[i].name = e.file /\ e.line >= 1 /\ e.line <= files[i].lines
 ResultOK(ev) ==
-  /\ ev.ok = (Len(ev.errors) = 0)                                   \* never both, never neither
+  /\ ev.ok = (ev.nerrors = 0)                                       \* never both, never neither
+  /\ (ev.nerrors = 0) = (Len(ev.errors) = 0)                        \* (the log carries at most the first 300 errors of a result)
   /\ \A i \in DOMAIN ev.errors : ev.errors[i].msglen >= 1 /\ LocOK(ev.errors[i], ev.files)
 
 VARIABLE l
